@@ -44,7 +44,53 @@ PARAMS = [{'n': 'x', 'ty': 'integer'}, {'n': 'flag', 'ty': 'boolean'}, {'n': 's'
           {'n': 'vec', 'ty': 'integer', 'dims': '[4]'}]
 
 
-def model_with(schema, home, text, seed):
+PORT_HOMES = {'portop': 'handler', 'portsig': 'notify'}
+
+
+def with_ports(d, home, text, seed):
+    """everything the model declares moves into the component C1; C1 gets the ports Req (requires) and Prov (provides) of the
+    interface Iface: the messages the corpus sends (op1, op0, sig1, sig0) and, as action homes, the operation handler and
+    the signal notify with the parameters every home has"""
+    d['comps'] = ['C1']
+    for key in ('enums', 'udts', 'classes', 'rels', 'funcs', 'ees', 'consts'):
+        for x in d.get(key, []):
+            x['comp'] = 'C1'
+    P = lambda n, ty: {'n': n, 'ty': ty}
+    d['ifaces'] = [{'n': 'Iface', 'eps': [
+        {'n': 'op1', 'k': 'op', 'ret': 'integer', 'params': [P('a', 'integer'), P('b', 'string')]},
+        {'n': 'op0', 'k': 'op', 'ret': 'void', 'params': []},
+        {'n': 'sig1', 'k': 'sig', 'params': [P('n', 'integer')]},
+        {'n': 'sig0', 'k': 'sig', 'params': []},
+        {'n': 'handler', 'k': 'op', 'ret': 'integer', 'params': PARAMS},
+        {'n': 'notify', 'k': 'sig', 'params': PARAMS}]}]
+    side = 'Req' if seed % 2 else 'Prov'
+    bodies = {side: {PORT_HOMES[home]: text}} if home in PORT_HOMES else {}
+    d['ports'] = [{'n': 'Req', 'k': 'R', 'iface': 'Iface', 'comp': 'C1', 'bodies': bodies.get('Req', {})},
+                  {'n': 'Prov', 'k': 'P', 'iface': 'Iface', 'comp': 'C1', 'bodies': bodies.get('Prov', {})}]
+
+
+def align_port_kinds(src, real):
+    """The word send in front of a message across a port is optional; the text generator leaves it out of statements and
+    writes it in front of assignments.  Which of the two node classes (port / implicit invocation) the regenerated
+    statement parses to is therefore not compared: the invocations across the ports take the kind the source has"""
+    def walk(x, out):
+        if isinstance(x, dict):
+            if x.get('t') == 'icall' and x.get('ns') in ('Req', 'Prov'):
+                out.append(x)
+            for k in sorted(x):
+                walk(x[k], out)
+        elif isinstance(x, list):
+            for v in x:
+                walk(v, out)
+        return out
+    a, b = walk(src, []), walk(real, [])
+    if len(a) == len(b) and all(x['n'] == y['n'] and x['ns'] == y['ns'] for x, y in zip(a, b)):
+        for x, y in zip(a, b):
+            if {x['kind'], y['kind']} <= {'port', 'implicit'}:
+                y['kind'] = x['kind']
+
+
+def model_with(schema, home, text, seed, incomp=False):
     env, texts = environment()
     item = {'env': env, 'texts': dict(texts), 'script_texts': []}
     d = calls.diagram(schema, item)
@@ -79,10 +125,16 @@ def model_with(schema, home, text, seed):
                                                                       'params': PARAMS})
     elif home == 'derived':
         [a for a in [c for c in d['classes'] if c['kl'] == 'A'][0]['attrs'] if a['n'] == 'Calc'][0]['body'] = text
+    if incomp:
+        with_ports(d, home, text, seed)
     syn = _bp.Synth(d, seed)
     loader = bp.fresh_loader()
     loader.input(''.join(syn.statements(seed if seed % 2 else None)))
     m = loader.build_metamodel()
+    if home in PORT_HOMES:
+        kinds = ('SPR_RO', 'SPR_PO') if home == 'portop' else ('SPR_RS', 'SPR_PS')
+        inst = [x for kind in kinds for x in m.select_many(kind) if x.Name == PORT_HOMES[home] and x.Action_Semantics_internal == text][0]
+        return m, inst
     if home == 'func':
         inst = m.select_any('S_SYNC', xtuml.where_eq(Name='target'))
     elif home == 'bridge':
@@ -131,7 +183,7 @@ def one_item(plan, item):
           'strict': 'yes' if item.get('strict') else 'no', 'casediff': []}
     try:
         with limit(60.0):
-            m, inst = model_with(schema, item['home'], text, item.get('seed', 0))
+            m, inst = model_with(schema, item['home'], text, item.get('seed', 0), item.get('incomp', False))
             before = violations(m, item['home'])
             prebuild.prebuild_action(inst)
             after = violations(m, item['home'])
@@ -145,7 +197,7 @@ def one_item(plan, item):
                 # the same tokens at the same positions with every keyword in lower case: the population prebuilt from
                 # that text is what keyword case must not change
                 low, _ = render(item['toks'], item.get('seed', 0), 'lower', item.get('layout', 'mixed'), item.get('keep'))
-                m0, inst0 = model_with(schema, item['home'], low, item.get('seed', 0))
+                m0, inst0 = model_with(schema, item['home'], low, item.get('seed', 0), item.get('incomp', False))
                 prebuild.prebuild_action(inst0)
                 d0, d1 = population_dump(m0), population_dump(m)
                 diff = [r for r in d1 if r not in d0][:3] + ['lower: ' + r for r in d0 if r not in d1][:3]
@@ -154,8 +206,9 @@ def one_item(plan, item):
             ev['gen'] = gen
             root = oal.parse(gen)
             ev['real'], _ = oaladapter.convert(root, gen)
+            align_port_kinds(ev['src'], ev['real'])
             # translating the generated text again yields the same generated text
-            m2, inst2 = model_with(schema, item['home'], gen, item.get('seed', 0))
+            m2, inst2 = model_with(schema, item['home'], gen, item.get('seed', 0), item.get('incomp', False))
             prebuild.prebuild_action(inst2)
             gen2 = sourcegen.gen_text_action(inst2)
             ev['idem'] = 'yes' if gen2 == gen else 'no'
